@@ -1,0 +1,58 @@
+//go:build verif
+
+// Contracts for the verification machinery in /verif (comment-only; no declarations).
+// C06 (sequential kernel): the connectedness run loop never announces the same state twice in a row except the
+// forced NotConnected of an add event; the per-connection callbacks are dispatched in the order
+// Connected-then-Disconnected, Disconnected at most once per call and only for a connection that is registered
+// as connected (or parked), and the two registries stay disjoint.
+
+package swarm
+
+//@ lockinv connectionEventsEmitter.notifsLk(c *connectionEventsEmitter) =
+//@     c.connected != nil && c.pendingDisconnect != nil && c.connected != c.pendingDisconnect &&
+//@     (forall x *Conn :: !(has(c.connected, x) && has(c.pendingDisconnect, x)))
+
+//@ func (c *connectionEventsEmitter) notifyPeer
+//@ prop C06
+//@ ensures called(connectedness, 0) && arg(connectedness, 0, 0) == pce.PeerID
+//@ ensures called(Emit, 0) <==> (ret(connectedness, 0, 0) != old(c.lastConnectednessEvent[pce.PeerID]) ||
+//@         (pce.Type == addConnEvent && ret(connectedness, 0, 0) == network.NotConnected))
+//@ ensures ncalls(Emit, 0) <= 1
+//@ ensures c.lastConnectednessEvent[pce.PeerID] == ret(connectedness, 0, 0)
+//@ ensures has(c.lastConnectednessEvent, pce.PeerID) <==> ret(connectedness, 0, 0) != network.NotConnected
+//@ ensures forall q peer.ID :: q != pce.PeerID ==> c.lastConnectednessEvent[q] == old(c.lastConnectednessEvent[q]) &&
+//@         has(c.lastConnectednessEvent, q) == old(has(c.lastConnectednessEvent, q))
+//@ ensures old(forall q peer.ID :: has(c.lastConnectednessEvent, q) ==> c.lastConnectednessEvent[q] != network.NotConnected) ==>
+//@         (forall q peer.ID :: has(c.lastConnectednessEvent, q) ==> c.lastConnectednessEvent[q] != network.NotConnected)
+//@ modifies contents(c.lastConnectednessEvent)
+
+//@ func (c *connectionEventsEmitter) AddConn
+//@ prop C06
+//@ ensures old(c.closed) ==> !called(onConnected, 0) && !called(onDisconnected, 0) && sent(c.peerConnectednessCh) == 0 &&
+//@         (forall x *Conn :: has(c.connected, x) == old(has(c.connected, x)) && has(c.pendingDisconnect, x) == old(has(c.pendingDisconnect, x)))
+//@ ensures !old(c.closed) ==> sent(c.peerConnectednessCh) == 1 && called(onConnected, 0) && ncalls(onConnected, 0) == 1 && arg(onConnected, 0, 0) == conn
+//@ ensures ncalls(onDisconnected, 0) <= 1
+//@ ensures called(onDisconnected, 0) ==> called(onConnected, 0) && arg(onDisconnected, 0, 0) == conn && !has(c.pendingDisconnect, conn) && !has(c.connected, conn)
+//@ ensures !old(c.closed) && !called(onDisconnected, 0) ==> has(c.connected, conn) && !has(c.pendingDisconnect, conn)
+//@ ensures forall x *Conn :: x != conn ==> has(c.connected, x) == old(has(c.connected, x)) && has(c.pendingDisconnect, x) == old(has(c.pendingDisconnect, x))
+//@ assert before onDisconnected#0: called(onConnected, 0)
+//@ assert before Lock#1: called(onConnected, 0)
+//@ modifies contents(c.connected), contents(c.pendingDisconnect)
+
+//@ func (c *connectionEventsEmitter) RemoveConn
+//@ prop C06
+//@ ensures old(c.closed) ==> !called(onDisconnected, 0) && sent(c.peerConnectednessCh) == 0 &&
+//@         (forall x *Conn :: has(c.connected, x) == old(has(c.connected, x)) && has(c.pendingDisconnect, x) == old(has(c.pendingDisconnect, x)))
+//@ ensures !old(c.closed) ==> sent(c.peerConnectednessCh) == 1
+//@ ensures ncalls(onDisconnected, 0) <= 1
+//@ ensures called(onDisconnected, 0) ==> arg(onDisconnected, 0, 0) == conn && !has(c.connected, conn) && !has(c.pendingDisconnect, conn)
+//@ ensures !old(c.closed) && !called(onDisconnected, 0) ==> has(c.pendingDisconnect, conn) && !has(c.connected, conn)
+//@ ensures forall x *Conn :: x != conn ==> has(c.connected, x) == old(has(c.connected, x)) && has(c.pendingDisconnect, x) == old(has(c.pendingDisconnect, x))
+//@ modifies contents(c.connected), contents(c.pendingDisconnect)
+
+//@ func (s *Swarm) notifyAll
+//@ prop C06
+//@ loop 0 iteration called(notify, 0) && arg(notify, 0, 0) == f
+//@ loop 0 invariant forall g network.Notifiee :: has(s.notifs.m, g) == old(has(s.notifs.m, g))
+//@ ensures forall g network.Notifiee :: has(s.notifs.m, g) ==> visited(0, g)
+//@ modifies nothing
